@@ -171,6 +171,12 @@ static void fmtr(const Req &req, std::ostream &out) {
             cap = (cap + 63) / 64 * 64;  // documented precondition of the ptb64 bulk readers
         }
         simd_bit_table<W> table = major ? simd_bit_table<W>(cap, n) : simd_bit_table<W>(n, cap);
+        // dirty table on purpose (a reused buffer): the reader must overwrite every bit of the shots it reads
+        if (req.iarg(7, 1) != 0) {
+            size_t rows = major ? cap : n, cols = major ? n : cap;
+            for (size_t a = 0; a < rows; a++)
+                for (size_t b = 0; b < cols; b++) table[a][b] = ((a * 7 + b * 3) % 5) < 3;
+        }
         size_t got;
         if (entry == "major") {
             got = reader->read_into_table_with_major_shot_index(table, cap);
